@@ -40,6 +40,36 @@ def in_ide(p):
     return p.startswith(("ide::", "<ide::"))
 
 
+
+def index_ranges_are_read_off_the_arena(F, res, rule="A10"):
+    """A10: a range of arena slots (the fields of a constructor, the constructors of a type, the parameters of a lambda) names what was
+    allocated between two readings of the arena's next index - one before the loop that allocates, one after. A count of what the
+    source *wrote* is not the number of slots: the lowering skips a field without a type, so `A(x: , y: Int)` followed by `B(z: Int)`
+    would own a field of B; `Variant::fields()` pairs that field with the wrong parent and go-to-definition answers with a focus
+    range outside the full range (or the range points past the arena and the walk over the fields panics)."""
+    n, bad = 0, []
+    for p_, f in sorted(F.fns.items()):
+        if not p_.startswith("ide::def::") or not f.blocks:
+            continue
+        d = None
+        for b, t in f.calls():
+            if not FL.short(callee(t) or callee_def(t) or "").endswith("IdxRange::new"):
+                continue
+            d = d or FL.Defs(f)
+            n += 1
+            o = d.origin_op(t["args"][0])
+            ends = []
+            if o.get("k") == "agg":
+                for x in o["rv"]["ops"]:
+                    ox = d.origin_op(x) if isinstance(x, dict) and "k" not in x else {"k": "const"}
+                    ends.append(FL.short(callee(ox["t"]) or callee_def(ox["t"]) or "?") if ox.get("k") == "call" else ox.get("k"))
+            ok = len(ends) == 2 and ends[0] == ends[1] and isinstance(ends[0], str) and "next_" in ends[0] and ends[0].endswith("_idx")
+            if not ok:
+                bad.append("%s line %s: ends come from %s" % (FL.short(p_), t["ln"], ends))
+    res.floor("arena index ranges built in the lowering", n, 3)
+    res.ob(rule, "idx-range/both-ends-read-off-the-arena", "every IdxRange built in the lowering runs from one reading of the arena's next index to a later reading "
+           "of the same", not bad, where="crates/ide/src/def", how="%d ranges" % n if not bad else "; ".join(bad))
+
 def run(F, res, tier):
     # ---- A1
     n = 0
@@ -195,6 +225,8 @@ def run(F, res, tier):
     # the same string only if parse_module lexes its `src` argument as it is (no stripped prefix, no normalisation)
     from rules import c01 as _c01
     _c01.parse_module_rules(F, res, rule="A5")
+    _c01.lexer_reads_its_whole_input(F, res, rule="A5")
+    index_ranges_are_read_off_the_arena(F, res)
     # A6: a reported file belongs to the workspace as the document store sees it: the analysis is told about every file the
     # store adds or removes before the handler that did it returns (C13/D6)
     from rules import c13 as _c13
